@@ -68,7 +68,11 @@ class Decorator:
         if r < 0.85:
             return b.expr(kind='name', name=self.r.choice(scope))
         if r < 0.93:
-            return b.expr(kind='ifexp', args=[b.D(self.reads(b, scope, 1)), b.T(self.reads(b, scope, 1)), b.T(self.reads(b, scope, 1))])
+            def leaf():
+                if self.r.random() < 0.25:     # a conditional expression nested in a conditional expression
+                    return b.expr(kind='ifexp', args=[b.D(self.reads(b, scope, 1)), b.T(self.reads(b, scope, 1)), b.T(self.reads(b, scope, 1))])
+                return b.T(self.reads(b, scope, 1))
+            return b.expr(kind='ifexp', args=[b.D(self.reads(b, scope, 1)), leaf(), leaf()])
         return b.expr(kind=self.r.choice(['and', 'or']), args=[b.T(self.reads(b, scope, 1)), b.T(self.reads(b, scope, 1))])
 
     def decorate(self, toks):
